@@ -185,21 +185,25 @@ static void op_eps(int argc, char **argv) {
 
 /* epl <n> <P1> <k1> ... : ep_mul_sim_lot ; epd <n> <P1> <d1> ... : ep_mul_sim_dig */
 static void op_epl(int argc, char **argv) {
+	int alias = -1;
+	/* epla/epda <j> <n> ... : the result is written over the j-th input point */
+	if (argc >= 3 && argv[0][3] == 'a') { alias = parse_int(argv[1]); argv++; argc--; }
 	if (argc < 2) { fprintf(OUT, "bad-args\n"); return; }
-	int n = parse_int(argv[1]), caught = 0;
-	if (n < 0 || n > 24 || argc < 2 + 2 * n) { fprintf(OUT, "bad-args\n"); return; }
-	static ep_t ps[24]; static bn_t ks[24]; dig_t ds[24]; ep_t c; raw_t r;
-	ep_null(c); ep_new(c);
+	int n = parse_int(argv[1]), caught = 0, lot = argv[-(alias >= 0)][2] == 'l';
+	if (n < 0 || n > 24 || argc < 2 + 2 * n || alias >= n) { fprintf(OUT, "bad-args\n"); return; }
+	static ep_t ps[24]; static bn_t ks[24]; dig_t ds[24]; ep_t c0; raw_t r;
+	ep_null(c0); ep_new(c0);
 	for (int i = 0; i < n; i++) {
 		ep_null(ps[i]); ep_new(ps[i]); bn_null(ks[i]); bn_new(ks[i]);
 		ep_tok(ps[i], argv[2 + 2 * i]); raw_parse(&r, argv[3 + 2 * i]); raw_to_bn(ks[i], &r);
 		ds[i] = ks[i]->dp[0];
 	}
+	ep_t *cp = alias >= 0 ? &ps[alias] : &c0;
 	RLC_TRY {
-		if (!strcmp(argv[0], "epl")) ep_mul_sim_lot(c, ps, (const bn_t *)ks, n);
-		else ep_mul_sim_dig(c, (const ep_t *)ps, ds, n);
+		if (lot) ep_mul_sim_lot(*cp, ps, (const bn_t *)ks, n);
+		else ep_mul_sim_dig(*cp, (const ep_t *)ps, ds, n);
 	} RLC_CATCH_ANY { caught = 1; }
-	if (take_err() || caught) fprintf(OUT, "err"); else ep_out(c);
+	if (take_err() || caught) fprintf(OUT, "err"); else ep_out(*cp);
 	fputc('\n', OUT);
 }
 
@@ -231,7 +235,7 @@ static void op_ep_read_bin(int argc, char **argv) {
 #include "ops_ep2.inc"
 
 const op_t ops_ep[] = {
-	{"ep_param", op_ep_param}, {"ep2", op_ep2}, {"ep1", op_ep1}, {"epm", op_epm}, {"eps", op_eps}, {"epl", op_epl}, {"epd", op_epl},
+	{"ep_param", op_ep_param}, {"ep2", op_ep2}, {"ep1", op_ep1}, {"epm", op_epm}, {"eps", op_eps}, {"epl", op_epl}, {"epd", op_epl}, {"epla", op_epl}, {"epda", op_epl},
 	{"ep_write_bin", op_ep_write_bin}, {"ep_read_bin", op_ep_read_bin},
 	EP2_OPS
 	{NULL, NULL}
